@@ -320,3 +320,10 @@ impl<T> VerifToVec<T> for Vec<T> {
 }
 /// D14 target: `arr.to_vec()` (element-wise clone)
 #[verifier::external_body] pub fn verif_arr_to_vec<T, const N: usize>(a: &[T; N]) -> (r: Vec<T>) ensures r@ == a@ { unimplemented!() }
+
+/// `Display` of the numeric wrappers (`x.to_string()` in response attributes and error payloads): an arbitrary text — no clause may depend on it
+impl Uint128 { #[verifier::external_body] pub fn to_string(&self) -> (r: String) { unimplemented!() } }
+impl Uint256 { #[verifier::external_body] pub fn to_string(&self) -> (r: String) { unimplemented!() } }
+impl Uint64 { #[verifier::external_body] pub fn to_string(&self) -> (r: String) { unimplemented!() } }
+impl Decimal { #[verifier::external_body] pub fn to_string(&self) -> (r: String) { unimplemented!() } }
+impl Decimal256 { #[verifier::external_body] pub fn to_string(&self) -> (r: String) { unimplemented!() } }
